@@ -23,8 +23,16 @@ XA, YA = ("xa", ()), ("ya", ())
 UI, UM, UP = ("u", ("i",)), ("u", ("i-1",)), ("u", ("i+1",))
 VI = ("v", ("i",))
 WIJ = ("w", ("i", "j"))
+TA, TBI = ("ta", ()), ("tb", ("i",))          # local (automatic) variables
+# array notation (top level only)
+UA, VA, WA = ("u", (":",)), ("v", (":",)), ("w", (":", ":"))
+UW, VW = ("u", ()), ("v", ())
+US, VS, UL = ("u", ("1:n",)), ("v", ("1:n",)), ("u", ("0:n-1",))
+WC = ("w", (":", "1"))
 
-REALS = ("p", "q", "xa", "ya", "u", "v", "w")
+REALS = ("p", "q", "xa", "ya", "u", "v", "w")   # the real dummy arguments
+LOCALS = ("ta", "tb")
+CANDIDATES = REALS + LOCALS
 
 # name -> (text with {B}, passive variables multiplying B, passive variables
 #          dividing B)
@@ -40,6 +48,8 @@ COEFS = {
     "/p": ("{B}/p", (), ("p",)),
     "/q": ("{B}/q(i)", (), ("q",)),
     "p/q": ("p*{B}/q(i)", ("p",), ("q",)),
+    "qa": ("q(:)*{B}", ("q",), ()),
+    "qs": ("q(1:n)*{B}", ("q",), ()),
 }
 
 # loop kinds: name -> (start, stop, step or None) in terms of the loop's own
@@ -53,6 +63,10 @@ LOOPS = {
     "d2": ("n", "1", "-2"),
     "e2": ("2", "n", "2"),
     "tri": ("1", "i", None),       # inner loops only
+    # non-unit steps with a lower bound that is an expression (m - n is 1,
+    # m - 1 is n)
+    "c3": ("m - n", "n", "3"),
+    "r3": ("m - 1", "1", "-3"),
 }
 
 CONDS = {
@@ -149,6 +163,8 @@ subroutine tl_k_code(m, p, q, xa, ya, u, v, w)
   real, intent(inout) :: u(0:m)
   real, intent(inout) :: v(0:m)
   real, intent(inout) :: w(0:m,0:m)
+  real :: ta
+  real :: tb(0:m)
   integer :: n
   integer :: i
   integer :: j
@@ -202,6 +218,21 @@ def has_loop(items):
                (item[0] == "if" and (has_loop(item[2]) or
                                      (item[3] is not None and has_loop(item[3]))))
                for item in items)
+
+
+def uses_extent(items):
+    """Does the array extent (n, m) matter: a loop, or array notation."""
+    if has_loop(items):
+        return True
+    for item in statements(items):
+        accs = [item[1]] + [t[2] for t in item[2]]
+        if any(a[0] in ARRAY_NAMES and (not a[1] or any(":" in x for x in a[1]))
+               for a in accs):
+            return True
+    return False
+
+
+ARRAY_NAMES = ("q", "u", "v", "w", "tb")
 
 
 def stmt_vars(item):
@@ -271,7 +302,7 @@ def active_choices(items):
     """Every non-empty set of the real variables referenced by the body for
     which the body is legal tangent-linear code (sorted tuples, deterministic
     order)."""
-    names = [v for v in REALS if v in body_vars(items)]
+    names = [v for v in CANDIDATES if v in body_vars(items)]
     out = []
     for size in range(1, len(names) + 1):
         for combo in itertools.combinations(names, size):
@@ -281,7 +312,7 @@ def active_choices(items):
 
 
 def illegal_choices(items):
-    names = [v for v in REALS if v in body_vars(items)]
+    names = [v for v in CANDIDATES if v in body_vars(items)]
     out = []
     for size in range(1, len(names) + 1):
         for combo in itertools.combinations(names, size):
@@ -299,6 +330,8 @@ RHS_OF = {
     "L1": {XA: (XA, YA, UI, UM), YA: (YA, XA, VI),
            UI: (UI, UM, UP, VI, XA), UM: (UM, UI, VI), UP: (UP, UI),
            VI: (VI, UI, UP, XA)},
+    # fewer candidates: used for 2- and 3-term statements
+    "L1s": {XA: (XA, UI, UM), UI: (UI, UM, VI), VI: (VI, UI, XA)},
     "L2": {WIJ: (WIJ, UI, XA), UI: (UI, WIJ), XA: (XA, WIJ), VI: (VI, WIJ)},
 }
 
@@ -316,7 +349,7 @@ def one_term(ctx, lhs_list, coefs, signs=("+", "-"), zero=True):
 
 
 def multi_term(ctx, lhs_list, term_sets):
-    """term_sets: per position (signs, coefs); B from RHS_OF."""
+    """term_sets: per position (signs, coefs); B from RHS_OF[ctx]."""
     out = []
     for lhs in lhs_list:
         options = []
@@ -331,6 +364,8 @@ def multi_term(ctx, lhs_list, term_sets):
 # Representative statements for multi-statement bodies.  They are chosen so
 # that consecutive statements depend on each other in every direction
 # (write-after-read, read-after-write, same LHS twice, stencil neighbours).
+# None of them subtracts its own left-hand side: those forms are covered by
+# the single-statement families (see notes/C19.md, defect D1).
 def reduced(ctx, tier):
     if ctx == "T":
         base = [
@@ -342,7 +377,7 @@ def reduced(ctx, tier):
         more = [
             asg(XA),                                      # xa = 0.0
             asg(YA, ("+", "1", YA), ("-", "/p", XA)),     # ya = ya - xa/p
-            asg(XA, ("+", "1", YA), ("-", "1", XA)),      # xa = ya - xa
+            asg(XA, ("+", "2", XA), ("-", "1", YA)),      # xa = 2.0*xa - ya
         ]
     elif ctx == "L1":
         base = [
@@ -357,7 +392,7 @@ def reduced(ctx, tier):
             asg(UI, ("+", "p", UI)),                      # u(i) = p*u(i)
             asg(YA, ("-", "1", XA)),                      # ya = -xa
             asg(VI, ("+", "1", VI), ("+", "/q", UI)),     # v(i) = v(i) + u(i)/q(i)
-            asg(UI, ("+", "1", UP), ("-", "2", UI)),      # u(i) = u(i+1) - 2.0*u(i)
+            asg(UI, ("+", "2", UI), ("-", "1", UP)),      # u(i) = 2.0*u(i) - u(i+1)
         ]
     else:
         base = [
@@ -373,26 +408,77 @@ def reduced(ctx, tier):
     return base + (more if tier == "thorough" else [])
 
 
+def array_notation():
+    """Array-notation statements (PSyAD turns them into loops first).  The same
+    array never appears with different sections on both sides (PSyAD documents
+    that as unsupported)."""
+    return [
+        asg(UA, ("+", "p", VA)),                          # u(:) = p*v(:)
+        asg(UA, ("+", "1", UA), ("+", "qa", VA)),         # u(:) = u(:) + q(:)*v(:)
+        asg(UW, ("+", "2", VW)),                          # u = 2.0*v
+        asg(UW, ("+", "1", UW), ("-", "1", VW)),          # u = u - v
+        asg(VS, ("+", "1", VS), ("+", "p", UL)),          # v(1:n) = v(1:n) + p*u(0:n-1)
+        asg(VS, ("+", "1", UL), ("-", "qs", US)),         # v(1:n) = u(0:n-1) - q(1:n)*u(1:n)
+        asg(US, ("+", "p", US)),                          # u(1:n) = p*u(1:n)
+        asg(WC, ("+", "1", WC), ("+", "p", UA)),          # w(:,1) = w(:,1) + p*u(:)
+        asg(UA, ("+", "p", XA)),                          # u(:) = p*xa
+        asg(WA, ("+", "2", WA)),                          # w(:,:) = 2.0*w(:,:)
+        asg(VA),                                          # v(:) = 0.0
+        asg(VW),                                          # v = 0.0
+    ]
+
+
+def local_temporaries():
+    """Bodies that use the local (automatic) real variables ta and tb(0:m);
+    every local is written before it is read."""
+    t_from_u = asg(TA, ("+", "p", UI))                    # ta = p*u(i)
+    v_add_t = asg(VI, ("+", "1", VI), ("+", "1", TA))     # v(i) = v(i) + ta
+    v_set_t = asg(VI, ("+", "q", TA))                     # v(i) = q(i)*ta
+    t_zero = asg(TA)
+    t_acc = asg(TA, ("+", "1", TA), ("+", "1", UI))       # ta = ta + u(i)
+    x_from_t = asg(XA, ("+", "p", TA))                    # xa = p*ta
+    x_add_t = asg(XA, ("+", "1", XA), ("-", "1", TA))     # xa = xa - ta
+    tb_set = asg(TBI, ("+", "p", UI), ("+", "1", UM))     # tb(i) = p*u(i) + u(i-1)
+    v_from_tb = asg(VI, ("+", "1", VI), ("+", "q", TBI))  # v(i) = v(i) + q(i)*tb(i)
+    u_from_tb = asg(UI, ("+", "1", TBI))                  # u(i) = tb(i)
+    t_from_x = asg(TA, ("+", "2", XA))                    # ta = 2.0*xa
+    y_from_t = asg(YA, ("+", "1", YA), ("+", "1", TA))    # ya = ya + ta
+    x_from_t2 = asg(XA, ("-", "1", TA))                   # xa = -ta
+    return [
+        [loop("up", [t_from_u, v_add_t])],
+        [loop("s2", [t_from_u, v_set_t])],
+        [loop("dn", [t_from_u, v_add_t, asg(UI, ("+", "1", TA))])],
+        [t_zero, loop("up", [t_acc]), x_from_t],
+        [t_zero, loop("up", [t_acc]), x_add_t],
+        [t_zero, loop("up", [t_acc, v_add_t])],
+        [loop("up", [tb_set]), loop("up", [v_from_tb])],
+        [loop("up", [tb_set]), loop("dn", [u_from_tb])],
+        [loop("up", [tb_set, v_from_tb])],
+        [t_from_x, y_from_t],
+        [t_from_x, x_from_t2],
+        [t_from_x, ifb("p>0", [y_from_t], [x_from_t2])],
+    ]
+
+
 def corpus(tier):
-    """List of (key, items), smallest first, no duplicates."""
+    """List of (key, items, family), smallest first, no duplicates.  The quick
+    corpus is a subset of the thorough one."""
     thorough = tier == "thorough"
     fams = []
 
     def add(name, bodies):
         fams.append((name, [tuple(b) for b in bodies]))
 
+    pm = ("+", "-")
     # ---- A: one statement at the top level -------------------------------
     coefs_t = ["1", "2", "p", "Bp", "p2", "/p"] + (["mp"] if thorough else [])
     top1 = one_term("T", [XA, YA], coefs_t)
-    top2 = multi_term("T", [XA, YA], [(("+", "-"), ("1", "p")),
-                                      (("+", "-"), ("1", "p"))])
-    top3 = multi_term("T", [XA], [(("+", "-"), ("1",)), (("+", "-"), ("p",)),
-                                  (("+", "-"), ("2",))])
+    top2 = multi_term("T", [XA, YA], [(pm, ("1", "p")), (pm, ("1", "p"))])
+    top3 = multi_term("T", [XA], [(pm, ("1",)), (pm, ("p",)), (pm, ("2",))])
     if thorough:
-        top2 += multi_term("T", [XA, YA], [(("+", "-"), ("/p", "2")),
-                                           (("+", "-"), ("1", "p", "/p"))])
-        top3 += multi_term("T", [YA], [(("+", "-"), ("p",)), (("+", "-"), ("1",)),
-                                       (("+", "-"), ("/p",))])
+        top2 += multi_term("T", [XA, YA], [(pm, ("/p", "2")),
+                                           (pm, ("1", "p", "/p"))])
+        top3 += multi_term("T", [YA], [(pm, ("p",)), (pm, ("1",)), (pm, ("/p",))])
     add("A1.top-1term", [[s] for s in top1])
     add("A2.top-2term", [[s] for s in top2])
     add("A3.top-3term", [[s] for s in top3])
@@ -401,21 +487,24 @@ def corpus(tier):
     coefs_l = ["1", "2", "p", "Bp", "q", "pq", "/p", "/q", "p/q"] + \
         (["p2", "mp"] if thorough else [])
     lhs_l1 = [XA, YA, UI, UM, UP, VI]
-    loop1 = one_term("L1", lhs_l1, coefs_l)
-    add("B1.loop-1term", [[loop("up", [s])] for s in loop1])
-    loop2 = multi_term("L1", [XA, UI, VI], [(("+", "-"), ("1", "p")),
-                                           (("+", "-"), ("1", "q"))])
-    add("B2.loop-2term", [[loop("up", [s])] for s in loop2])
-    loop3 = multi_term("L1", [UI], [(("+",), ("p",)), (("+", "-"), ("1",)),
-                                    (("+", "-"), ("/q",))])
+    add("B1.loop-1term", [[loop("up", [s])]
+                          for s in one_term("L1", lhs_l1, coefs_l)])
+    loop2 = multi_term("L1s", [XA, UI, VI], [(pm, ("p",)), (pm, ("1", "q"))])
     if thorough:
-        loop3 += multi_term("L1", [XA, VI], [(("+", "-"), ("1",)),
-                                             (("+", "-"), ("p",)),
-                                             (("+",), ("q",))])
+        loop2 += multi_term("L1", [XA, UI, VI], [(pm, ("1", "p")),
+                                                 (pm, ("1", "q"))])
+    add("B2.loop-2term", [[loop("up", [s])] for s in loop2])
+    loop3 = multi_term("L1s", [UI], [(("+",), ("p",)), (pm, ("1",)),
+                                     (pm, ("/q",))])
+    if thorough:
+        loop3 += multi_term("L1", [UI], [(("+",), ("p",)), (pm, ("1",)),
+                                         (pm, ("/q",))])
+        loop3 += multi_term("L1s", [XA, VI], [(pm, ("1",)), (pm, ("p",)),
+                                              (("+",), ("q",))])
     add("B3.loop-3term", [[loop("up", [s])] for s in loop3])
 
     # ---- C: every loop kind around the representative statements ---------
-    kinds = ["up", "dn", "in", "s2"] + (["d2", "e2"] if thorough else [])
+    kinds = ["up", "dn", "in", "s2", "c3", "r3"] + (["d2", "e2"] if thorough else [])
     red1 = reduced("L1", "thorough")
     add("C1.loopkinds", [[loop(k, [s])] for k in kinds for s in red1])
     if thorough:
@@ -433,7 +522,7 @@ def corpus(tier):
                       for s in red2])
     nest1 = one_term("L2", [WIJ, UI, XA, VI], ["1", "p", "q"] +
                      (["/q", "pq"] if thorough else []),
-                     signs=("+", "-") if thorough else ("+",))
+                     signs=pm if thorough else ("+",))
     add("D2.nested-1term", [[loop("up", [loop("up", [s], "j")])] for s in nest1])
 
     # ---- E: if blocks -----------------------------------------------------
@@ -441,10 +530,11 @@ def corpus(tier):
     add("E1.if-top", [[ifb("p>0", [s])] for s in redt] +
         [[ifb("p>0", [s], [t])] for s in redt[:4] for t in redt[:4]])
     conds = ["p>0", "q>h", "i>1"]
+    num = 10 if thorough else 5
     add("E2.loop-if", [[loop(k, [ifb(c, [s])])] for k in ("up", "s2")
-                       for c in conds for s in red1[:5 if not thorough else 10]])
+                       for c in conds for s in red1[:num]])
     add("E3.if-loop", [[ifb("p>0", [loop(k, [s])])] for k in ("up", "dn")
-                       for s in red1[:5 if not thorough else 10]])
+                       for s in red1[:num]])
     add("E4.loop-if-else", [[loop("up", [ifb(c, [s], [t])])] for c in ("q>h", "i>1")
                             for s in red1[:4] for t in red1[:4]])
 
@@ -452,7 +542,7 @@ def corpus(tier):
     rt = reduced("T", tier)
     r1 = reduced("L1", tier)
     r2 = reduced("L2", tier)
-    k2 = ["up", "s2"] + (["dn", "in"] if thorough else [])
+    k2 = ["up", "s2"] + (["dn", "in", "c3"] if thorough else [])
     add("F1.top-seq2", [[s, t] for s in rt for t in rt])
     add("F2.loop-seq2", [[loop(k, [s, t])] for k in k2 for s in r1 for t in r1])
     add("F3.loop-then-stmt", [[loop("up", [s]), t] for s in r1 for t in rt] +
@@ -469,24 +559,33 @@ def corpus(tier):
         [[loop("up", [ifb("i>1", [s]), t])] for s in r1[:4] for t in r1[:4]] +
         [[loop("up", [s, ifb("q>h", [t])])] for s in r1[:4] for t in r1[:4]])
 
+    # ---- H, L: array notation, local active variables ---------------------
+    arr = array_notation()
+    add("H1.array-notation", [[s] for s in arr] +
+        [[s, t] for s in arr[:6] for t in arr[:6] if thorough])
+    add("L1.local-temporaries", local_temporaries())
+
     # ---- G: three statements (thorough) ----------------------------------
     if thorough:
         bt = reduced("T", "quick")
         b1 = reduced("L1", "quick")
         b2 = reduced("L2", "quick")
-        add("G1.top-seq3", [[s, t, r] for s in bt for t in bt for r in bt])
+        add("G1.top-seq3", [[s, t, r] for s in rt for t in rt for r in rt])
         add("G2.loop-seq3", [[loop(k, [s, t, r])] for k in ("up", "s2")
-                             for s in b1 for t in b1 for r in b1])
+                             for s in b1 for t in b1 for r in b1] +
+            [[loop("up", [s, t, r])] for s in r1[5:] for t in r1 for r in r1[5:]])
         add("G3.mixed-seq3", [[s, loop("up", [t]), r] for s in bt for t in b1
                               for r in bt] +
-            [[loop("up", [s]), r, loop("dn", [t])] for s in b1[:4] for t in b1[:4]
+            [[loop("up", [s]), r, loop("dn", [t])] for s in b1 for t in b1
              for r in bt])
         add("G4.nested-seq3", [[loop("up", [s, loop("up", [t, r], "j")])]
                                for s in b1[:3] for t in b2 for r in b2] +
             [[loop("up", [loop("up", [t], "j"), s, loop("dn", [r], "j")])]
              for s in b1[:3] for t in b2 for r in b2])
         add("G5.if-seq3", [[loop("up", [s, ifb("i>1", [t], [r])])]
-                           for s in b1[:4] for t in b1[:4] for r in b1[:4]])
+                           for s in b1[:4] for t in b1[:4] for r in b1[:4]] +
+            [[loop("up", [ifb("q>h", [s, t]), r])]
+             for s in b1[:4] for t in b1[:4] for r in b1[:4]])
 
     seen = set()
     out = []
